@@ -303,6 +303,23 @@ mod private {
         if dist != 1.0 - exp {
             errs.push("rel_dist-not-1-minus-similarity");
         }
+        // the same first argument against a second argument of the same length that differs only beyond its 20th element,
+        // right afterwards (state remembered about "the second argument" must be about all of it)
+        if s2.len() > 21 {
+            let mut s2b = s2.to_vec();
+            let at = 20 + (s2.len() - 21) / 2;
+            s2b[at] = if s2b[at] == 'q' { 'z' } else { 'q' };
+            let last = s2b.len() - 1;
+            s2b[last] = if s2b[last] == 'j' { 'k' } else { 'j' };
+            let got = JC.with(|j| j.similarity(s1, &s2b));
+            let exp = oracle::set_jaccard(s1, &s2b);
+            cx.eval();
+            cx.count("calls whose second argument differs from the previous one only beyond its 20th element");
+            if got != exp {
+                cx.fail_sig("jaccard", "jaccard:depends-on-history".into(), json!({"seq1": s(s1), "seq2": s(&s2b), "previous_seq2": s(s2), "similarity": got, "expected": exp}));
+                return;
+            }
+        }
         // the two arguments may be parts of one buffer: a sequence against its own prefix / suffix / itself
         if !s1.is_empty() {
             let k = (s1.len() / 2).max(1);
